@@ -158,12 +158,16 @@ claim('C13', 'proof',
       'Trusted: engine; the deep clone is a fresh disjoint tree (C07/C01); primitives\' own decode is the induction hypothesis. Derived-value computation '
       '(`_compute_derived`) is not under contract.',
       'contract-based deductive verification (pyvc loop contract + trace obligations) + bounded stand-in', 'DESIGN.md 5/C13')
-claim('C18', 'other',
-      'Construction-time binding of `Functor.__init__` is executed symbolically against a specification of Python\'s binding rule (positional i binds parameter i; '
-      'surplus positionals go to *args or raise TypeError; a keyword naming a bound parameter raises TypeError; the symbolic constructor receives exactly that '
-      'binding) for every signature shape with <= 3 positional parameters (+- *args), <= 4 positional and <= 2 keyword arguments, values symbolic: 300 obligations, '
-      'all discharged, but with a stated bound on the signature size, so they are a BOUNDED stand-in and not counted as proved. The property itself (same result '
-      'or same kind of error as calling the original callable) is checked by the bounded differential driver with the interpreter as oracle over 240 signature shapes.',
-      'No unbounded obligation is discharged for C18: "behaves like the original callable" has the Python interpreter itself as specification, which a contract '
-      'cannot state in closed form; the binding loops run over argument lists whose length must be concrete for the engine. Trusted: engine.',
-      'contract-based symbolic execution with a stated bound + bounded differential oracle (labelled bounded, not proof)', 'DESIGN.md 5/C18')
+claim('C18', 'proof',
+      'NARROW proof kernel: `Signature.get_value_spec` -- the lookup every functor call uses to decide whether a keyword names a parameter -- returns, for '
+      'signatures of any size, the value spec of the first declared parameter of that name, else the value spec of **kwargs if there is one, else None (in '
+      'particular the name of *args is not a keyword parameter): 1 unbounded obligation. Construction-time binding of `Functor.__init__` is executed symbolically '
+      'against a specification of Python\'s binding rule (positional i binds parameter i; surplus positionals go to *args or raise TypeError; a keyword naming a '
+      'bound parameter raises TypeError; the symbolic constructor receives exactly that binding) for every signature shape with <= 3 positional parameters (+- *args), '
+      '<= 4 positional and <= 2 keyword arguments, values symbolic: 300 obligations, all discharged, but with a stated bound on the signature size, so they are a '
+      'BOUNDED stand-in and not counted as proved. The property itself (same result or same kind of error as calling the original callable) is checked by the '
+      'bounded differential driver with the interpreter as oracle (function, class-style and symbolized-class functors; signature shapes x supply modes x value '
+      'classes x operation histories).',
+      'Only the lookup kernel is proved: "behaves like the original callable" has the Python interpreter itself as specification, which a contract cannot state in '
+      'closed form; the binding loops run over argument lists whose length must be concrete for the engine. Trusted: engine.',
+      'contract-based deductive verification of a small kernel (pyvc) + shape-bounded symbolic execution + bounded differential oracle', 'DESIGN.md 5/C18')
